@@ -167,6 +167,11 @@ def judge_ic(ctx, sc, impl, model, tax):
                 continue
             for f in ('res', 'jcn', 'lin'):
                 if isinstance(e[f], str):
+                    if f == 'lin' and e[f] == 'exc:ZeroDivisionError' and ic_of(prob(a)) + ic_of(prob(b)) == 0:
+                        # hostile weights (probability > 1 on one side): the documented formula itself has a zero
+                        # denominator, so no value is specified
+                        ctx.dist['lin-undefined(ic1+ic2=0)'] += 1
+                        continue
                     ctx.fail('ic-metric-defined-with-common-hypernym', sc, dict(where, metric=f, got=e[f]))
                 elif isinstance(r[f], str) or not G.close(e[f], r[f]):
                     ctx.fail(f'{f}-symmetric', sc, dict(where, ab=e[f], ba=r[f]))
